@@ -125,6 +125,10 @@ def run(R):
              'math.log2 (libm, absent from SMT-LIB) is assumed monotone with absolute error < 2^-32 on [2^-11, 2^22]; its '
              'exactness on the powers of two of the table is checked concretely each run',
              'Python int/int true division is the correctly rounded quotient; int(float) = RTZ; math.ceil(float) = RTP to integer',
+             'lemmas are needed to DISCHARGE; for REFUTING any model may propose candidates: when a counterexample does not '
+             'replay, a cut helper leaves its lemma range, or the justified cut no longer fits an edited leaf, the same '
+             'condition is run again with the helpers in search mode (exact-ceiling / exact real-valued reading of the leaf, '
+             'no side conditions); only counterexamples that reproduce on the real uncut code are reported',
              'the cut for ceil((m/B)*1000) over-approximates: any value of the proven bucket may be returned (slack inputs)',
              'max(a, b) on ints is rewritten to the branch-free b + [a > b]*(a - b) and int(2**p * 1000) to a table sum (lemmas '
              'imax / pow2scale) so that CrossHair does not fork inside the numeric leaves',
@@ -163,9 +167,16 @@ def run(R):
         R.validation_points += floatcut.libm_log2_points()
     if 'pow2scale' in rules:
         R.validation_points += floatcut.libm_pow2_points()
-    _validate_cuts(R, H, cuts)
-    lemmas_ok = floatcut.prove(R, rules, lim, timeout_s=150 if quick else 600, workers=8,
-                               second=None if quick else 'cvc5')
+    unjustified = []
+    try:
+        _validate_cuts(R, H, cuts)
+    except (HarnessError, floatcut.CutRangeError) as e:
+        # the idiom still matches but the (edited) leaf no longer agrees with / fits the justified cut: nothing can be
+        # discharged through it; go on in search mode (candidates are replayed on the real code)
+        unjustified.append(f'{type(e).__name__}: {e}')
+        R.log(f'[C12] justified cut not applicable: {unjustified[0]} -> search mode only')
+    lemmas_ok = False if unjustified else floatcut.prove(R, rules, lim, timeout_s=150 if quick else 600, workers=8,
+                                                         second=None if quick else 'cvc5')
 
     # 2. CrossHair
     src, names = T.source(quick, variants, H)
@@ -177,6 +188,16 @@ def run(R):
             targets.append(f'{gm}.reach_{fn}')
     res = chrun.run(targets, per_condition_timeout=pct, workers=8)
     floatcut.require_verdicts(res)
+    meta_of = {fn: (kind, meta) for kind, fn, meta in names}
+
+    def argnames(fn):
+        kind, meta = meta_of[fn]
+        stub = kind == 'select' and meta['wt_i'] == 0 and meta['variant'] != 3
+        return ARGS[kind] + ([f'pr{i}' for i in range(T.NPRICE)] if stub else [])
+
+    refuted = {fn: (res[f'{gm}.{fn}'][1], argnames(fn)) for kind, fn, _ in names
+               if res[f'{gm}.{fn}'][0] == 'refuted' and kind in ('pool', 'select')}
+    decided = floatcut.two_phase(gm, refuted, lambda fn, a: _replay(H, *meta_of[fn], a), pct, prefix='T_') if refuted else {}
     for kind, fn, meta in names:
         v, msg, dt = res[f'{gm}.{fn}']
         if kind == 'selectK':
@@ -190,51 +211,44 @@ def run(R):
                 'private': 'job-private machine types placed unless storage exceeds the limit'}[kind]
         name = f'{fn}: {desc}'
         if v == 'confirmed':
-            good = reach and lemmas_ok
-            R.ob(name, 'discharged' if good else 'not_discharged', dt, {'twin': rmsg, 'lemmas_ok': lemmas_ok}, nontrivial=reach)
+            good = reach and lemmas_ok and not unjustified
+            R.ob(name, 'discharged' if good else 'not_discharged', dt,
+                 {'twin': rmsg, 'lemmas_ok': lemmas_ok, 'unjustified': unjustified}, nontrivial=reach)
         elif v == 'refuted':
-            stub = kind == 'select' and meta['wt_i'] == 0 and meta['variant'] != 3
-            argn = ARGS[kind] + ([f'pr{i}' for i in range(T.NPRICE)] if stub else [])
-            a = chrun.parse_counterexample(msg, argn)
-            if a is None:
-                raise HarnessError(f'cannot parse CrossHair counterexample: {msg}')
-            r = _replay(H, kind, meta, a)
-            if r is None and kind in ('pool', 'select'):
-                # The counterexample exists only under the over-approximations (bucket model of ceil((m/B)*1000), symbolic
-                # prices).  Search again with the tight (unproven, search-only) model of the float leaf; whatever it finds
-                # is replayed on the real code like any other counterexample.
-                tres = chrun.run([f'{gm}.T_{fn}'], per_condition_timeout=pct, workers=1)
-                floatcut.require_verdicts(tres)
-                tv, tmsg, tdt = tres[f'{gm}.T_{fn}']
-                if tv == 'refuted':
-                    a = chrun.parse_counterexample(tmsg, argn)
-                    if a is None:
-                        raise HarnessError(f'cannot parse CrossHair counterexample: {tmsg}')
-                    r = _replay(H, kind, meta, a)
-                    msg = tmsg
-                    dt += tdt
+            if fn in decided:
+                d = decided[fn]
+                dt += d['secs']
+                a, r = d['args'], d['result']
                 if r is None:
-                    R.ob(name, 'not_discharged', dt, {'crosshair': msg[-300:], 'tight_model': tv, 'note': 'counterexample exists only '
-                         'under the over-approximating cut / symbolic prices and does not reproduce on the real code; the '
-                         'search-mode run found none that does'})
+                    R.ob(name, 'not_discharged', dt, {'crosshair': msg[-300:], 'phase1': d['how'], 'search_twin': d['twin'],
+                         'note': 'no counterexample reproduced on the real code (lemma-range exit, over-approximating cut or '
+                                 'symbolic prices); the search-mode run found none that does'})
                     continue
-            if r is None:
-                raise HarnessError(f'CrossHair counterexample does not reproduce on the real code: {fn}: {msg}')
+                how = d['how']
+            else:
+                a = chrun.parse_counterexample(msg, ARGS[kind])
+                if a is None:
+                    raise HarnessError(f'cannot parse CrossHair counterexample: {msg}')
+                r = _replay(H, kind, meta, a)
+                how = 'direct'
+                if r is None:
+                    raise HarnessError(f'CrossHair counterexample does not reproduce on the real code: {fn}: {msg}')
             cls, why = r
             rep = {'kind': kind, 'meta': meta, 'args': {k: a[k] for k in ARGS[kind]}}
             if 'ck' in rep['args']:
                 rep['args']['c_mcpu'] = 250 << rep['args']['ck']
             pools = H.describe(H.config(meta['cloud'], meta['variant'])) if 'variant' in meta else None
             st = R.finding(cls, f'{fn} {rep["args"]}: {why}' + (f' pools={pools}' if pools else ''), rep)
-            R.ob(name, st, dt, {'cex': rep['args'], 'why': why}, nontrivial=True)
+            R.ob(name, st, dt, {'cex': rep['args'], 'why': why, 'found_by': how}, nontrivial=True)
         else:
             R.ob(name, 'not_discharged', dt, {'crosshair': msg[-300:]})
         R.sample({'condition': fn, 'verdict': v, 'secs': round(dt, 1), 'twin': rv})
     open_obs = [o['name'] for o in R.obligs if o['status'] == 'not_discharged']
-    if missing and open_obs and not R.violations:
+    if (missing or unjustified) and open_obs and not R.violations:
         # a float leaf was edited so that its idiom is no longer recognised and the uncut leaf could not be decided:
         # the source is no longer translatable => inconclusive (exit 2), never a silent pass
-        raise HarnessError(f'float idiom no longer recognised in {missing} and {len(open_obs)} obligations on the uncut code are undecided')
+        raise HarnessError(f'float idiom no longer recognised in {missing} / justified cut not applicable {unjustified}: '
+                           f'{len(open_obs)} obligations are undecided and the search mode found no counterexample that replays')
 
 
 def replay(path):
